@@ -6,4 +6,3 @@ INVARIANT FixedTotal
 INVARIANT FixedPinned
 INVARIANT FixedCopies
 INVARIANT FixedSymmetric
-INVARIANT FixedTransitive
